@@ -90,6 +90,7 @@ def corpus_cases(ctx, v, n_files=0, all_files=False, n_w3=0, w4=True, w1=True, m
     if w4:
         if w4_filter is None:
             cases.extend(gen_w4.twin_sequences(pyver(v)))
+            cases.extend(gen_w4.odd_filename_cases(pyver(v)))
         t = gen_w4.templates(pyver(v), ctx.tier)
         for i, (id_, _s, _m, _o) in enumerate(t):
             if w4_filter is None or w4_filter(id_):
